@@ -58,10 +58,11 @@ def run(ck):
             raise vkit.Infra("liveness was not checked")
         if thorough:
             ck.tlc_model("Shard", "Shard_C44t.cfg", timeout=3000)
+            ck.tlc_model("Shard", "Shard_C44u.cfg", timeout=3000)
         ck.setcov("exhaustive", True)
         ck.setcov("liveness_checked", "C44Live C44Stable under WF(GC progress) /\\ SF(epoch tick), no state constraint")
         ck.setcov("constants", "quick: Objs={1,3 TS->1,5} batch=1 epochs 0..3 Put GC Epoch InhumeCnr Quiesce, K=6" +
-                  ("; thorough adds Objs={2 exp1,3,4 LOCK->2,5} wc=on MarkDef, K=8" if thorough else ""))
+                  ("; thorough adds Objs={2 exp1,4 LOCK->2,5} wc=on MarkDef K=8 and Objs={1,3,5} wc=on MarkRed K=6" if thorough else ""))
     binp = ck.gobuild("sharda")
     if ck.replay:
         scripts = [json.load(open(ck.replay))["replay"]["script"]]
